@@ -17,12 +17,12 @@ LOCKSTEP = ["lock=1:17:3"]
 WALLET_CFGS = {
     "quick": [("cfg/WalletGen.quick.cfg", 4, []), ("cfg/WalletGen.veto.cfg", 8, []), ("cfg/WalletGen.lockstep.cfg", 2, LOCKSTEP)],
     "thorough": [("cfg/WalletGen.quick.cfg", 1, []), ("cfg/WalletGen.veto.cfg", 1, []), ("cfg/WalletGen.lockstep.cfg", 1, LOCKSTEP),
-                 ("cfg/WalletGen.vote.cfg", 1, []), ("cfg/WalletGen.thorough.cfg", 4, [])],
+                 ("cfg/WalletGen.vote.cfg", 2, []), ("cfg/WalletGen.thorough.cfg", 8, [])],
 }
 # design exploration on the specification alone (thorough tier): the two deviations suspected in the code
 DESIGN_CFGS = [("cfg/WalletLedger.restore0.cfg", True), ("cfg/WalletLedger.skipvotes.cfg", False)]
 
-COUNTERS = ("nudged", "skipped_shadowed", "reorg_cases", "utxos_compared", "usable_checked", "probe_spends", "probe_blocks", "retried")
+COUNTERS = ("nudged", "skipped_shadowed", "reorg_cases", "utxos_compared", "usable_checked", "usable_by_keeper", "probe_spends", "probe_blocks", "retried")
 
 
 def replay_one(ctx, b):
